@@ -188,4 +188,61 @@ def extra_checks(ctx):
     res.append({'name': f'range-and-monotone on {n} seeded pairs', 'ok': bad is None, 'case': bad, 'detail': 'DockQ outside [0,1] or a score/class got worse when every measure improved'})
     p = SS.compute_DockQScore(1.0, 0.0, 0.0)
     res.append({'name': 'perfect model scores 1', 'ok': p == 1.0, 'case': {'value': p}, 'detail': ''})
+    res.append(history_independence(ctx))
     return res
+
+
+def history_independence(ctx):
+    """Both scores are functions of their arguments: the class of (Fnat, L, i) and the DockQ value do not depend on what was
+    asked before in the same process.  Sweep the cells, make 'foreign' calls (every short string constant of the module as the
+    `system` argument, other scales, out-of-range and non-numeric arguments, all inside try/except), sweep again, compare.
+    (Round-4 seed C12-r4m2: a peptide criteria table merged into the shared protein-protein table by `dict.update`; the main
+    cases never pass another `system`, so only a history shows it.)"""
+    import ast, inspect, sys
+    fs, ls, is_ = cells(F_T, 0.0, 0.75), cells(L_T, 0.0, 20.0), cells(I_T, 0.0, 8.0)
+    grid = list(itertools.product(fs, ls, is_))
+
+    def sweep():
+        out = []
+        for f, l, i in grid:
+            try:
+                out.append((SS.compute_CapriClass(f, l, i), SS.compute_DockQScore(f, l, i)))
+            except Exception as e:
+                out.append(exc_tag(e))
+        return out
+    first = sweep()
+    consts = set()
+    try:
+        src = inspect.getsource(sys.modules[SS.__module__])
+        for node in ast.walk(ast.parse(src)):
+            if isinstance(node, ast.Constant) and isinstance(node.value, str) and 0 < len(node.value) <= 30 and '\n' not in node.value:
+                consts.add(node.value)
+    except Exception:
+        pass
+    consts |= {'protein-peptide', 'protein-protein', 'protein-DNA', 'protein-RNA', 'protein-nucleic', 'peptide', 'antibody-antigen', ''}
+    foreign = []
+    for sname in sorted(consts):
+        foreign.append(('capri', (0.35, 4.5, 3.0), {'system': sname}))
+    foreign += [('dockq', (0.5, 3.0, 2.0), {'d1': 5.0, 'd2': 1.0}), ('dockq', (0.5, 3.0, 2.0), {'d1': 8.5, 'd2': 1.5}),
+                ('capri', (2.0, -1.0, -1.0), {}), ('capri', (None, None, None), {}), ('dockq', (None, None, None), {}),
+                ('capri', ('0.5', '1', '1'), {}), ('capri', (float('nan'), 1.0, 1.0), {}), ('dockq', (1.0, 0.0, 0.0), {'d1': 0.0, 'd2': 0.0})]
+    import warnings
+    done = []
+    for kind, args, kw in foreign:
+        try:
+            with warnings.catch_warnings():
+                warnings.simplefilter('ignore')
+                (SS.compute_CapriClass if kind == 'capri' else SS.compute_DockQScore)(*args, **kw)
+            done.append([kind, [repr(a) for a in args], kw, 'returned'])
+        except BaseException as e:
+            done.append([kind, [repr(a) for a in args], kw, type(e).__name__])
+    second = sweep()
+    bad = None
+    for (f, l, i), a, b in zip(grid, first, second):
+        if a != b:
+            bad = {'arguments': [f, l, i], 'before the foreign calls': a, 'after the foreign calls': b,
+                   'foreign calls that returned': [d for d in done if d[3] == 'returned'][:12]}
+            break
+    return {'name': f'history independence: {len(grid)} cells give the same class and DockQ before and after {len(foreign)} foreign calls '
+                    f'({sum(1 for d in done if d[3] == "returned")} returned, the others raised)',
+            'ok': bad is None, 'case': bad, 'detail': 'the class / score of the same arguments changed after other calls in the same process'}
